@@ -2,6 +2,7 @@ package worlds
 
 import (
 	"bytes"
+	"context"
 	"errors"
 	"fmt"
 	"io"
@@ -35,6 +36,8 @@ type dMsg struct {
 	inv, ret  int // event ticks; -1 = not yet
 	delivered int
 	pos       int
+	delivTick int // tick of the (first) delivery
+	invStep   int // scheduler step at invocation
 }
 
 const (
@@ -63,6 +66,10 @@ type dRun struct {
 	stallFor  time.Duration
 	gap       int
 	fatalWait bool
+	errKind    int
+	twoClosers bool  // a second goroutine calls Close at the same time
+	closeRets  []int // tick at which each Close call returned
+	alertAt    [][2]int
 	neighbour  bool // a second diode.Writer shares the package-level buffer pool
 	closeTwice bool
 	close2Inv  int
@@ -94,6 +101,7 @@ type dRun struct {
 	dw         diode.Writer
 	tap        *dTap
 	sinkErrs   int
+	sinkClosed int // tick at which Close of the wrapped writer was called
 }
 
 func (r *dRun) on(p string) bool { return r.prop == p }
@@ -115,6 +123,7 @@ func (t *dTap) Write(p []byte) (int, error) {
 	m.data = append([]byte(nil), p...)
 	r.byData[string(m.data)] = m
 	m.inv = r.t()
+	m.invStep = zsim.S.StepNo()
 	r.started++
 	if o := r.started - r.sinkCalls; o > r.maxOut {
 		r.maxOut = o
@@ -144,11 +153,21 @@ func (t *dTap) Close() error {
 		return err
 	}
 	r.closeRet = r.t()
+	r.closeRets = append(r.closeRets, r.closeRet)
 	zsim.Log("Close returned")
 	return err
 }
 
 type dSink struct{ r *dRun }
+
+// tempErr is an error that calls itself temporary (net.Error style).
+type tempErr struct{}
+
+func (tempErr) Error() string   { return "temporary failure" }
+func (tempErr) Temporary() bool { return true }
+func (tempErr) Timeout() bool   { return true }
+
+var sinkErrors = []error{errors.New("sink error"), os.ErrClosed, io.ErrClosedPipe, tempErr{}, io.ErrShortWrite, context.DeadlineExceeded, io.EOF}
 
 func (k *dSink) Write(p []byte) (int, error) {
 	r := k.r
@@ -170,6 +189,12 @@ func (k *dSink) Write(p []byte) (int, error) {
 		}
 	} else {
 		m.delivered++
+		if m.delivered == 1 {
+			m.delivTick = r.t()
+		}
+		if r.sinkClosed > 0 && r.on("C11") {
+			zsim.Fail("C11.delivery_after_close", "message %s was handed to the wrapped writer after that writer had been closed", m.id)
+		}
 		if m.delivered > 1 && r.on("C10") {
 			zsim.Fail("C10.duplicate", "message %s delivered twice", m.id)
 		}
@@ -218,7 +243,14 @@ func (k *dSink) Write(p []byte) (int, error) {
 		if idx%2 == 0 {
 			zsim.Fault("sink_error")
 			r.sinkErrs++
-			return 0, errors.New("sink error")
+			return 0, sinkErrors[r.errKind]
+		}
+	case 5:
+		// from some message on every call fails (a destination that went away)
+		if idx >= r.stallAt {
+			zsim.Fault("sink_fails_from_now_on")
+			r.sinkErrs++
+			return 0, sinkErrors[r.errKind]
 		}
 	case 4:
 		zsim.Fault("sink_short_write")
@@ -251,6 +283,19 @@ func (k nbSink) Write(p []byte) (int, error) {
 	}
 	r.nbSeen[s] = true
 	return len(p), nil
+}
+
+// Close makes the sink an io.Closer: diode.Writer.Close must call it after the
+// ring has been drained.
+func (k *dSink) Close() error {
+	if zsim.Dying() {
+		return nil
+	}
+	if k.r.sinkClosed == 0 {
+		k.r.sinkClosed = k.r.t()
+	}
+	zsim.Log("wrapped writer closed")
+	return nil
 }
 
 type collisionCounter struct{ r *dRun }
@@ -341,9 +386,20 @@ func (r *dRun) producer(p int, lg zerolog.Logger, fatal bool) func() {
 	}
 }
 
+// deliveredInTime: a delivery counts for C11 only if it happened before Close returned.
+func (r *dRun) deliveredInTime(m *dMsg) bool {
+	if m.delivered == 0 {
+		return false
+	}
+	if r.prop == "C11" && r.closeRet > 0 && m.delivTick > r.closeRet {
+		return false
+	}
+	return true
+}
+
 func (r *dRun) missing() (n int, ids []string) {
 	for _, m := range r.msgs {
-		if m.ret >= 0 && m.delivered == 0 {
+		if m.ret >= 0 && !r.deliveredInTime(m) {
 			n++
 			ids = append(ids, m.id)
 		}
@@ -386,7 +442,9 @@ func (r *dRun) config() {
 	}
 	r.scenario = c.Weighted(w...)
 	r.reentrant = c.Chance(1, 6)
-	r.sinkKind = c.Weighted(8, 3, 3, 1, 1)
+	r.sinkKind = c.Weighted(8, 3, 3, 1, 1, 1)
+	r.errKind = c.Intn(len(sinkErrors))
+	r.twoClosers = c.Chance(1, 4)
 	r.sinkDelay = []time.Duration{time.Microsecond, 100 * time.Microsecond, 5 * time.Millisecond}[c.Intn(3)]
 	r.stallAt = c.Intn(4)
 	r.stallFor = []time.Duration{50 * time.Millisecond, time.Second}[c.Intn(2)]
@@ -430,6 +488,7 @@ func (diodeWorld) Run(prop string, ch *zsim.Choices, trace bool) *RunResult {
 			}
 			r.alertSum += missed
 			r.alertCalls++
+			r.alertAt = append(r.alertAt, [2]int{r.t(), missed})
 			zsim.Probe("alert")
 			zsim.Log("alert(%d)", missed)
 			if missed <= 0 && r.on("C10") {
@@ -463,12 +522,14 @@ func (diodeWorld) Run(prop string, ch *zsim.Choices, trace bool) *RunResult {
 				}
 			})
 		}
-		defer func() {
+		// the neighbour is finished and closed before the final Settle of every
+		// scenario, so that "settled" really is the last state of the run
+		finishNeighbour := func() {
 			if r.neighbour && !zsim.Dying() {
 				zsim.Join(nbTask)
 				nbw.Close()
 			}
-		}()
+		}
 		fatalProd := -1
 		if r.scenario == scFatal {
 			fatalProd = ch.Intn(r.nProd)
@@ -481,6 +542,7 @@ func (diodeWorld) Run(prop string, ch *zsim.Choices, trace bool) *RunResult {
 		case scStallForever:
 			zsim.Join(r.prodTasks...)
 			zsim.Sleep(3*r.interval + time.Millisecond)
+			finishNeighbour()
 			zsim.Settle()
 			r.settled = true
 			return
@@ -491,6 +553,7 @@ func (diodeWorld) Run(prop string, ch *zsim.Choices, trace bool) *RunResult {
 			}
 			r.tap.Close()
 			zsim.Join(r.prodTasks...)
+			finishNeighbour()
 			zsim.Settle()
 			r.settled = true
 			return
@@ -520,12 +583,29 @@ func (diodeWorld) Run(prop string, ch *zsim.Choices, trace bool) *RunResult {
 				zsim.Fail("C12.not_prompt", "%d written message(s) %v neither delivered nor reported (alerts=%d) after %v idle with no later Write or Close; tasks: %s", n, ids, r.alertSum, idle, s.Describe())
 			}
 		}
+		var closer2 *zsim.Task
+		if r.twoClosers {
+			// two goroutines close at the same time (a shutdown path and, say, a Fatal):
+			// whichever Close returns, everything written must have been delivered or reported
+			zsim.Probe("two_closers")
+			closer2 = zsim.Spawn("closer2", func() {
+				r.dw.Close()
+				if !zsim.Dying() {
+					r.closeRets = append(r.closeRets, r.t())
+					zsim.Log("second closer's Close returned")
+				}
+			})
+		}
 		r.tap.Close()
+		if closer2 != nil {
+			zsim.Join(closer2)
+		}
 		if r.closeTwice {
 			r.close2Inv = r.t()
 			r.dw.Close()
 			r.close2Ret = r.t()
 		}
+		finishNeighbour()
 		zsim.Settle()
 		r.settled = true
 	}
@@ -536,6 +616,19 @@ func (diodeWorld) Run(prop string, ch *zsim.Choices, trace bool) *RunResult {
 // post is the history oracle, evaluated after the run.
 func (r *dRun) post(s *zsim.Sim) *zsim.Violation {
 	if s.Truncated {
+		// the step / simulated-time cap was hit. On code where the properties hold no run
+		// comes near the caps (a Write is a few dozen steps); a Write or a Close that is
+		// still in flight after thousands of steps is busy-waiting or sleeping in a loop.
+		if r.on("C10") {
+			for _, m := range r.msgs {
+				if m.inv >= 0 && m.ret < 0 && s.StepNo()-m.invStep > 5000 {
+					return viol("C10.write_blocked", "Write(%s) has not returned after %d scheduler steps and %v of simulated time (busy-waiting or sleeping for the consumer?); scenario %s", m.id, s.StepNo()-m.invStep, time.Duration(s.Now()), scNames[r.scenario])
+				}
+			}
+		}
+		if r.on("C12") && r.closeInv > 0 && r.closeRet == 0 && !s.Exited {
+			return viol("C12.close_blocked", "Close has not returned when the run hit its cap of %d steps / %v simulated time; tasks: %s", s.StepNo(), time.Duration(s.Now()), s.EndInfo)
+		}
 		return nil
 	}
 	if r.on("C10") {
@@ -580,12 +673,36 @@ func (r *dRun) post(s *zsim.Sim) *zsim.Violation {
 			if r.closeRet == 0 || !allReturned {
 				return nil
 			}
+			for _, T := range r.closeRets {
+				miss, al := 0, 0
+				var mids []string
+				for _, m := range r.msgs {
+					if m.ret >= 0 && (m.delivered == 0 || m.delivTick > T) {
+						miss++
+						mids = append(mids, m.id)
+					}
+				}
+				for _, a := range r.alertAt {
+					if a[0] <= T {
+						al += a[1]
+					}
+				}
+				if miss > al {
+					return viol("C11.silent_loss", "a Close call returned (tick %d) while %d written message(s) %v were neither delivered nor reported yet (alerts so far %d); Close calls returned at ticks %v", T, miss, mids, al, r.closeRets)
+				}
+			}
 			n, ids := r.missing()
 			if n > r.alertSum {
 				return viol("C11.silent_loss", "after Close: %d message(s) %v neither delivered nor covered by alerts (sum %d); written=%d delivered=%d retries=%d", n, ids, r.alertSum, r.written(), len(r.deliveries), r.collisions)
 			}
-			if r.collisions == 0 && len(r.deliveries)+r.alertSum != r.written() {
-				return viol("C11.count_mismatch", "no retry happened but delivered(%d)+reported(%d) != written(%d)", len(r.deliveries), r.alertSum, r.written())
+			inTime := 0
+			for _, m := range r.msgs {
+				if m.ret >= 0 && r.deliveredInTime(m) {
+					inTime++
+				}
+			}
+			if r.collisions == 0 && inTime+r.alertSum != r.written() {
+				return viol("C11.count_mismatch", "no retry happened but delivered before Close returned(%d)+reported(%d) != written(%d)", inTime, r.alertSum, r.written())
 			}
 			if r.maxOut < r.ring && (r.alertSum != 0 || n != 0) {
 				return viol("C11.drop_below_capacity", "never more than %d outstanding with ring %d, yet alerts=%d missing=%v", r.maxOut, r.ring, r.alertSum, ids)
